@@ -30,9 +30,29 @@ class C15:
               ("d", [(b"b", ("i", 1)), (b"a", ("i", 2)), (b"ab", ("s", b"x")), (b"", ("l", []))])]
         return [Case("encdec " + bgen.to_tokens(v), "corpus", {"value": bgen.to_tokens(v)}) for v in vs]
 
+    def shaped(self, rng):
+        """documents whose SHAPE is the point: many container-valued siblings in one list or dictionary, deep nesting
+        (well below the depths of the known stack-exhaustion finding), a files-like list of many small dictionaries"""
+        r = rng.random()
+        k = rng.choice([2, 31, 63, 64, 65, 66, 100, 129, 300])
+        if r < 0.25:
+            doc = b"l" + rng.choice([b"le", b"de", b"lee", b"li1ee"]) * k + b"e"
+        elif r < 0.5:
+            keys = sorted(b"k%03d" % i for i in range(k))
+            doc = b"d" + b"".join(b"%d:%s" % (len(x), x) + rng.choice([b"le", b"de", b"li0ee"]) for x in keys) + b"e"
+        elif r < 0.75:
+            d = rng.choice([2, 31, 63, 64, 65, 66, 100, 129, 300])
+            doc = rng.choice([b"l", b"d1:a"]) * d + b"i7e" + b"e" * d
+        else:
+            doc = b"d5:filesl" + b"".join(b"d6:lengthi%de4:path2:%02dee" % (i, i % 100) for i in range(k)) + b"e4:name1:ne"
+        return doc
+
     def gen(self, rng, tier):
         n = {"quick": 1500, "thorough": 30000, "search": 6000}[tier]
         cases = []
+        for _ in range({"quick": 40, "thorough": 400, "search": 100}[tier]):
+            doc = self.shaped(rng)
+            cases.append(Case("reenc %s" % doc.hex(), "reenc-shaped", {"doc": doc[:60].decode("latin1"), "bytes": len(doc)}))
         for _ in range(n):
             if rng.random() < 0.6:
                 v = bgen.rvalue(rng, depth=rng.choice([1, 2, 3, 4]))
